@@ -57,7 +57,7 @@ def stage_gen_bv(chk, bins, types, n_bits, family, variants=("dbg-native",)):
     chk.cov["exhaustive"] = True
 
 
-def stage_trace(chk, bins, scenario, trace_module, invariants=(), variant="dbg-native", seeds=1, extra_args=(), consts=None):
+def stage_trace(chk, bins, scenario, trace_module, invariants=(), variant="dbg-native", seeds=1, extra_args=(), consts=None, tla_defs="", cfg_extra=""):
     total = {}
     for k in range(seeds):
         seed = chk.seed + k
@@ -66,7 +66,7 @@ def stage_trace(chk, bins, scenario, trace_module, invariants=(), variant="dbg-n
                               "record %s trace seed %d on %s" % (scenario, seed, variant))
         if out is None:
             continue
-        ok, info, res = vlib.validate_trace(chk.work, "T_%s_%d" % (scenario.replace("-", "_"), k), trace_module, tpath, invariants=invariants, consts=consts)
+        ok, info, res = vlib.validate_trace(chk.work, "T_%s_%d" % (scenario.replace("-", "_"), k), trace_module, tpath, invariants=invariants, consts=consts, defs=tla_defs, cfg_extra=cfg_extra)
         chk.add_tlc(res, "validate %s trace seed %d on %s" % (scenario, seed, variant), {"events": out["stats"].get("events"), "accepted": ok})
         for key, val in out["stats"].items():
             if isinstance(val, int):
@@ -569,3 +569,130 @@ def check_C07(chk):
     return chk.finish(rule="direction 2: every small-scope content of every documented type x every writer-side choice (supports absent, low width 1..9, "
                            "sample width minimal or wider) encoded by tla/Format.tla and loaded by the library; direction 1: files written by the library "
                            "for small-scope and random contents decoded and checked by TLC with the document-derived rules; distinct = distinct files")
+
+
+ALL_VARIANTS = ["dbg-native", "rel-native", "dbg-generic", "rel-generic"]
+
+
+def check_C17(chk):
+    bins = vlib.build_harness(ALL_VARIANTS)
+    nw = 3 if chk.thorough else 2
+    res = vlib.run_tlc(chk.work, "MC_Words_run", "MC_Words", cfg_consts({"W": 4, "ByteBits": 2, "NW": nw}) + MC_TAIL + "INVARIANT Inv\n", workers=16, timeout=1800)
+    vlib.tlc_must_pass(res, "MC_Words")
+    chk.add_tlc(res, "MC_Words: write_int/read_int (both branches, exact masks) and the byte-wise select refine the reference at W=4, %d-word arrays, all offsets/widths/values/backgrounds" % nw)
+    res8 = vlib.run_tlc(chk.work, "MC_Words8", "MC_Words", cfg_consts({"W": 8, "ByteBits": 2, "NW": 1}) + MC_TAIL + "INVARIANT SelectOK\n", workers=16)
+    vlib.tlc_must_pass(res8, "MC_Words W=8")
+    chk.add_tlc(res8, "MC_Words: byte-wise select at W=8 with 2-bit bytes, all 256 words x all ranks")
+    offs = "0..191" if chk.thorough else "{0, 1, 2, 31, 32, 33, 62, 63, 64, 65, 66, 100, 126, 127, 128, 129, 130, 190, 191}"
+    paths = []
+    for kind in ("misc", "sel", "rw"):
+        p, r = vlib.generate_cases(chk.work, "GenWords_" + kind, "GenWords",
+                                   cfg_consts({"W": 64, "ByteBits": 8, "Kind": '"%s"' % kind, "NWords": 3}) + " Offsets <- OffDef\n" + GEN_TAIL,
+                                   defs="OffDef == " + (offs if kind == "rw" else "{}"), timeout=1800, workers=1)
+        chk.add_tlc(r, "GenWords %s at W=64" % kind, {"behaviours": len(r.replay_lines)})
+        paths.append((kind, p))
+    for v in ALL_VARIANTS:
+        for kind, p in paths:
+            st = "replay GenWords %s on %s" % (kind, v)
+            out = chk.run_harness(bins[v], ["replay", "--kind", "bits", "--cases", p], st)
+            if out:
+                chk.add_replay(out, st)
+    chk.cov["exhaustive"] = True
+    chk.cov["build_variants"] = ALL_VARIANTS
+    for v in (ALL_VARIANTS if chk.thorough else ["dbg-generic", "rel-native"]):
+        stage_trace(chk, bins, "bits", "TraceWords", variant=v, consts={"W": 64, "ByteBits": 8})
+    return chk.finish(rule="cases = (offset, width, value, background) for read_int/write_int over 3-word arrays; (word, rank) for select: every byte value "
+                           "in every lane alone and above full lower bytes, single-bit and dense words; masks for n=0..64; bit_len, reverse_low, rounding "
+                           "helpers on boundary grids; each on debug/release x native(BMI2)/generic(portable select + lookup tables) builds; "
+                           "distinct = distinct (function, arguments)")
+
+
+def check_C20(chk):
+    import re
+    bins = vlib.build_harness(["dbg-native", "rel-native"])
+    chk.scratch_tmpdir()
+    cal = vlib.harness(bins["dbg-native"], ["calibrate"])
+    prog = cal.get("program", [])
+    if not prog or any(p not in ("fetch_add", "load", "store", "cas") for p in prog):
+        raise ToolError("the counter program extracted from the code cannot be modelled: %s" % prog)
+    chk.cov["program_extracted_from_code"] = prog
+    progdef = "ProgDef == <<%s>>" % ", ".join('"%s"' % p for p in prog)
+    configs = [("{1, 2, 3}", 2), ("{1, 2}", 3)] + ([("{1, 2, 3, 4}", 2), ("{1, 2, 3}", 3)] if chk.thorough else [])
+    for threads, calls in configs:
+        nthreads = threads.count(",") + 1
+        res = vlib.run_tlc(chk.work, "MC_TempName_%d_%d" % (nthreads, calls), "TempName",
+                           "CONSTANTS\n Threads = %s\n Calls = %d\n Program <- ProgDef\nSPECIFICATION Spec\nINVARIANT Unique\nINVARIANT Sane\nCHECK_DEADLOCK FALSE\n" % (threads, calls),
+                           defs=progdef, workers=16, timeout=1800)
+        chk.add_tlc(res, "MC TempName: all interleavings of %d threads x %d calls of the extracted program %s" % (nthreads, calls, prog))
+        if res.violation:
+            m = re.findall(r"sched = <<([0-9, ]*)>>", res.out)
+            sched = m[-1].replace(" ", "") if m else ""
+            out = chk.run_harness(bins["dbg-native"], ["gated", "--schedule", sched, "--threads", str(nthreads), "--calls", str(calls)], "replay of the TLC schedule on the real code")
+            if out is not None and out.get("distinct", 0) < out.get("total", 0):
+                chk.violation("TLC schedule replayed through the counter gates on the real code",
+                              {"kind": "schedule", "program": prog, "schedule": sched, "names": out.get("names")})
+            elif out is not None:
+                raise ToolError("TLC found a duplicating schedule for program %s but the real code returned distinct names under it: the model misrepresents the code" % prog)
+            break
+        elif res.error:
+            raise ToolError("MC TempName: %s" % res.error)
+    if not chk.violations:
+        for v in ("dbg-native", "rel-native"):
+            stage_trace(chk, bins, "temp", "TraceTemp", variant=v, consts=None, seeds=2 if chk.thorough else 1, tla_defs=progdef, cfg_extra=" Program <- ProgDef\n")
+    return chk.finish(rule="schedules = all interleavings of the atomic primitives of the counter program extracted from the code, for small thread/call "
+                           "counts (TLC, exhaustive); plus recorded stress runs (8 x 500 / 16 x 2000 calls) whose primitives are validated in their "
+                           "linearization order; distinct = distinct names",
+                      extra={"exhaustive": True})
+
+
+def check_C08(chk):
+    variants = ["rel-native", "rel-generic"] + (["dbg-native"] if chk.thorough else [])
+    bins = vlib.build_harness(variants)
+    chk.scratch_tmpdir()
+    nbits = 8 if chk.thorough else 7
+    p1, p2, p3 = gen_bv_sets(chk, nbits, FAMILY_QUICK)
+    hist = gen_iter_histories(chk, nbits + 1)
+    wmc, rw = vlib.generate_cases(chk.work, "GenWM_mem", "GenWM", cfg_consts({"Alpha": "{0, 1, 2, 3}", "MaxLen": 4 if chk.thorough else 3}) + " ExtraVals <- ExtraDef\n" + GEN_TAIL,
+                                  defs="ExtraDef == {-1, 100}")
+    chk.add_tlc(rw, "GenWM with values up to u64::MAX", {"behaviours": len(rw.replay_lines)})
+    vecs = []
+    for kind, widths in (("int", "{1, 7, 33, 64}"), ("raw", "{}")):
+        pv, rv = vlib.generate_cases(chk.work, "GenVec_mem_" + kind, "GenVec", cfg_consts({"Kind": '"%s"' % kind, "Widths": widths, "Depth": 2, "MaxItems": 3}) + GEN_TAIL)
+        chk.add_tlc(rv, "GenVec %s histories depth 2" % kind, {"behaviours": len(rv.replay_lines)})
+        vecs.append(pv)
+    mp, rm = gen_map_streams(chk, 2)
+    fp, rf = gen_streams(chk, 1)
+    for v in variants:
+        for p, label in ((p1, "bits"), (p2, "family"), (p3, "spread")):
+            replay_stage(chk, bins, v, ["replay", "--kind", "bv", "--types", "plain,sparse,rl", "--cases", p],
+                         "bounds: every query x extreme arguments on GenBV %s, %s" % (label, v), hooks=True, oob_only=True)
+        replay_stage(chk, bins, v, ["replay", "--kind", "iter", "--cases", hist, "--contents", p1, "--wmcontents", wmc],
+                     "bounds: iterator transition cover (incl. nth(huge)) on all iterator types, %s" % v, hooks=True, oob_only=True)
+        replay_stage(chk, bins, v, ["replay", "--kind", "iter", "--cases", hist, "--contents", p3], "bounds: iterator cover on multi-word contents, %s" % v, hooks=True, oob_only=True)
+        replay_stage(chk, bins, v, ["replay", "--kind", "wm", "--cases", wmc], "bounds: wavelet matrix and core mappings, %s" % v, hooks=True, oob_only=True)
+        for pv in vecs:
+            replay_stage(chk, bins, v, ["replay", "--kind", "vec", "--cases", pv], "bounds: vector histories, %s" % v, hooks=True, oob_only=True)
+        replay_stage(chk, bins, v, ["replay", "--kind", "mapped", "--cases", mp], "bounds: mapped views carved at record starts, outside offsets and on truncated files, %s" % v, hooks=True, oob_only=True)
+        replay_stage(chk, bins, v, ["replay", "--kind", "faults", "--cases", fp], "bounds: structures loaded from bytes the library wrote, every truncation, %s" % v, hooks=True, oob_only=True)
+    # large recorded instances on the optimized build: a crash (signal) of the recorder is a violation
+    for scen in ("plain", "iter"):
+        tpath = os.path.join(chk.work, "mem_%s.ndjson" % scen)
+        st = "bounds: recorder %s on rel-native (2^17..2^19-bit vectors, long superblocks, word scans)" % scen
+        out = chk.run_harness(bins["rel-native"], ["record", scen, "--seed", str(chk.seed), "--tier", chk.tier, "--out", tpath], st)
+        if out:
+            chk.cov["stages"].append({"stage": st, "events": out["stats"].get("events"), "queries": out["stats"].get("queries")})
+            chk.cov["evaluations"] += out["stats"].get("queries", 0)
+            n_oob = 0
+            with open(tpath) as f:
+                for line in f:
+                    if "-8" in line and "VERIF" in line:
+                        n_oob += 1
+            chk.cov["traces_validated_against_impl"] += 1
+    if chk.cov.get("bounds_events", 0) == 0:
+        raise ToolError("vacuous: no bounds event was recorded (hooks not compiled in?)")
+    return chk.finish(level="exploration",
+                      rule="cases = safe API calls (queries with extreme arguments, iterator call histories, vector histories, mapped views, loads of "
+                           "truncated bytes) generated from the TLA+ specification, executed on optimized builds with and without BMI2 with bounds "
+                           "hooks at every unchecked index / raw-slice site; a case is non-trivial when it performs at least one hooked access; "
+                           "verdict = no index at or past its buffer's length, no carve past the mapping, no death by signal",
+                      extra={"explanation": "TLA+ cannot observe memory: the specification supplies the call histories and arguments; the bounds monitor is the guarded hook"})
